@@ -112,6 +112,13 @@ TABLE.update({
     "c14_decl_redefinition_swallowed.diff": ("contracts.c14b", "visit_DeclStmt", None),
     "c14_assign_immutable_allowed.diff": ("contracts.c14b", "visit_AssignStmt", "name = expression"),
     "c14_assign_undefined_entity_allowed.diff": ("contracts.c14b", "visit_AssignStmt", "entity.property"),
+    "c14_call_arity_not_checked.diff": ("contracts.c14b", "visit_CallExpr", "function with 1 parameter"),
+    "c14_call_recursion_allowed.diff": ("contracts.c14b", "visit_CallExpr", "function with 2 parameter"),
+    "c14_call_bundle_argument_accepted.diff": ("contracts.c14b", "_is_compatible_argument", None),
+    "c14_select_absent_member_accepted.diff": ("contracts.c14b", "_infer_bundle_select_type", None),
+    "c14_reserved_signal_only_warns.diff": ("contracts.c14b", "_emit_reserved_signal_diagnostic", None),
+    "c14_unknown_signal_accepted.diff": ("contracts.c14b", "validate_signal_type_with_error", None),
+    "c14_memdecl_reserved_not_checked.diff": ("contracts.c14b", "visit_MemDecl", None),
     "c08_preserved_shares_network_zero.diff": ("contracts.c12", "_restore_preserved_connection", None),
     "c08_preserved_routing_failure_ignored.diff": ("contracts.c12", "_restore_preserved_connection", None),
     "c08_preserved_span_doubled.diff": ("contracts.c12", "_restore_preserved_connection", None),
